@@ -9,6 +9,7 @@ import (
 	"strings"
 
 	"github.com/volatiletech/authboss/v3"
+	"github.com/volatiletech/authboss/v3/remember"
 	"verif/sim"
 	"verif/world"
 )
@@ -139,6 +140,48 @@ func c08Unit(c *RunCtx, unit int) {
 			}
 		}
 	}
+	// the same table for an identity that comes from the remember-me cookie IN THIS VERY REQUEST (no
+	// stored session at all): such a request is half-authenticated. Run with a session store that answers
+	// an empty state object and with one that answers a nil state for visitors it knows nothing about.
+	for _, nilState := range []bool{false, true} {
+		cfg2 := world.Cfg{Modules: []string{"auth", "remember"}, Mount: mount, JSON: jsonMode, NilSessionState: nilState}
+		w2, err := world.New(cfg2, "c08r")
+		if err != nil {
+			c.Stats.Inconclusive = append(c.Stats.Inconclusive, "world: "+err.Error())
+			return
+		}
+		w2.Store.Put(&world.User{PID: "known@site.test", Email: "known@site.test", Password: sim.Hash4("x"), Confirmed: true})
+		for reqs := 0; reqs < 4; reqs++ {
+			for fi, fl := range fails {
+				for mp := 0; mp < 2; mp++ {
+					nb++
+					b := world.NewBrowser(nb)
+					if rec := w2.Do(b, world.Req{Method: "POST", Path: w2.P("/login"), Form: map[string]string{"email": "known@site.test", "password": "x", "rm": "true"}}); b.Jar["rm"] == "" {
+						c.Stats.Inconclusive = append(c.Stats.Inconclusive, fmt.Sprintf("C08: login with rm=true issued no cookie (status %d)", rec.Status))
+						return
+					}
+					delete(b.Jar, world.SidCookie) // the session is gone, the cookie stays
+					h := w2.AB.LoadClientStateMiddleware(remember.Middleware(w2.AB)(authboss.MountedMiddleware2(w2.AB, mp == 1, authboss.MWRequirements(reqs), fl)(w2.ProbeHandler("c08"))))
+					rec := w2.DoOn(h, b, world.Req{Method: "GET", Path: "/p"})
+					c.Stats.Evaluations++
+					c.Stats.Count("remember-cookie-cells")
+					cell := fmt.Sprintf("identity=remember-cookie-in-this-request nil-session-state=%v reqs=%d fail=%s mountPathed=%d mount=%q mode=%s", nilState, reqs, failName[fi], mp, mount, modeOf(cfg2))
+					if v := c08Judge(w2, rec, "known@site.test", true, false, reqs, fi, mp == 1, "ok", "/p"); v != nil {
+						v.Sig += "|identity-from-remember-cookie"
+						v.Msg = "cell[" + cell + "]: " + v.Msg
+						c.Stats.Violations = append(c.Stats.Violations, sim.VioRec{Violation: *v, Index: unit, Cfg: cfg2.String(), History: []string{cell, "GET /p"},
+							Detail: fmt.Sprintf("status=%d location=%q probe=%v", rec.Status, rec.Location, rec.Probe.Ran)})
+						return
+					}
+					out := "ran"
+					if !rec.Probe.Ran {
+						out = fmt.Sprint(rec.Status)
+					}
+					c.Stats.Sig(fmt.Sprintf("%s → %s", cell, out))
+				}
+			}
+		}
+	}
 	c.Stats.Sample(map[string]interface{}{"unit": unit, "mount": mount, "mode": modeOf(cfg), "cells_enumerated": 864, "example_cell": "uid=2 half=1 2fa=0 reqs=1 fail=Redirect mountPathed=1 storage=ok → 302 to <mount>/login?redir=<mount+path?query>"})
 }
 
@@ -216,11 +259,11 @@ func c08Judge(w *world.World, rec *world.Rec, uid string, half, two bool, reqs, 
 func init() {
 	register(&Check{
 		ID: "C08", Level: "exploration", Exhaustive: true,
-		Rule:  "complete enumeration of the truth table: session uid {absent, unknown to storage, known} x halfauth mark x 2FA mark x requirement bits {0,1,2,3} x refusal mode {404, redirect, 401} x mountPathed (and, for the two refusal modes they can express, the deprecated bool-flag wrappers Middleware/MountedMiddleware against the same table) x Mount {'', '/auth'} x storage outcome {ok, generic error, not-found} x body mode {form, JSON} = 3456 cells, every one executed against the real MountedMiddleware2 behind LoadClientStateMiddleware with hand-made server-side session contents; each cell with the plain target plus 5 seeded targets from a corpus of hostile paths (spaces, non-ASCII, dot segments, double slashes, 300-byte paths, encoded '/', '?', ';') and queries ('&', '=', '%23', '+', repeated keys, bad escapes, 800 bytes, an own redir=). Oracle: handler ran <=> known user & requirements & storage ok; otherwise exactly 404 / 401 / redirect to <Mount>/login whose decoded redir equals path[+mount]?rawquery / 500 on storage error. exhaustive=true refers to the cell table; targets are sampled. Two further units fire 8 anonymous clients x 150 (thorough: 1500) requests concurrently at ONE redirect-mode middleware instance behind a real server: each must be redirected with its own target. distinct_nontrivial = distinct (cell → outcome) pairs.",
+		Rule:  "complete enumeration of the truth table: session uid {absent, unknown to storage, known} x halfauth mark x 2FA mark x requirement bits {0,1,2,3} x refusal mode {404, redirect, 401} x mountPathed (and, for the two refusal modes they can express, the deprecated bool-flag wrappers Middleware/MountedMiddleware against the same table) x Mount {'', '/auth'} x storage outcome {ok, generic error, not-found} x body mode {form, JSON} = 3456 cells, every one executed against the real MountedMiddleware2 behind LoadClientStateMiddleware with hand-made server-side session contents; each cell with the plain target plus 5 seeded targets from a corpus of hostile paths (spaces, non-ASCII, dot segments, double slashes, 300-byte paths, encoded '/', '?', ';') and queries ('&', '=', '%23', '+', repeated keys, bad escapes, 800 bytes, an own redir=). Oracle: handler ran <=> known user & requirements & storage ok; otherwise exactly 404 / 401 / redirect to <Mount>/login whose decoded redir equals path[+mount]?rawquery / 500 on storage error. exhaustive=true refers to the cell table; targets are sampled. Plus 192 cells in which the identity comes from the remember-me cookie in the very request (no stored session; session store answering an empty state object or a nil state): half-authenticated by definition. Two further units fire 8 anonymous clients x 150 (thorough: 1500) requests concurrently at ONE redirect-mode middleware instance behind a real server: each must be redirected with its own target. distinct_nontrivial = distinct (cell → outcome) pairs.",
 		Units: func(t string) int { return 6 },
 		Run:   c08Unit,
 		Floors: func(t string) map[string]int {
-			return map[string]int{"cells": 3456, "deprecated-api-cells": 2304, "concurrent-refusals": 2000}
+			return map[string]int{"cells": 3456, "deprecated-api-cells": 2304, "remember-cookie-cells": 192, "concurrent-refusals": 2000}
 		},
 		Assumptions: []string{"for mountPathed routes the library path.Join()s mount and path; targets whose path that call would normalise (dot segments, '//', trailing '/') are only required to keep their query"},
 	})
